@@ -103,7 +103,7 @@ Fixpoint pk_cost (c : ctx) (ke : keyenv) (m : ms) : N :=
      + (fix go (l : list ms) : N := match l with [] => 0 | x :: r => pk_cost c ke x + go r end) xs)
     + nlen xs - 1
   | MMulti k ks | MSortedMulti k ks =>
-    num_cost k (nlen ks) + sumN (map (fun key => if is_uncompressed ke key then 65 else 34) ks) + 1
+    num_cost k (nlen ks) + sumN (map (fun key => if is_uncompressed ke key then 66 else 34) ks) + 1
   | MMultiA k ks | MSortedMultiA k ks =>
     num_cost k (nlen ks) + 33 * nlen ks + (nlen ks - 1) + 1
   end.
